@@ -117,7 +117,11 @@ pub fn run(e: &Engine) {
     let huge = vec![Recipe { kind: 1, n: e.tier.pick(2_300_000, 4_000_000), seed: e.seed ^ 0x16, fanout: 16, keylen: 12, values: 2 }];
     e.run_list("one-file-over-16MiB", &huge, |r| r.to_json(), check_recipe);
     e.require_class("delta_width_4", 1);
-    for cls in ["anytrans_ntrans_256", "anytrans_ntrans_33", "anytrans_ntrans_32", "anytrans_ntrans_0_final_out", "onetransnext_common_input", "onetrans_explicit_input", "delta_width_2", "delta_width_3", "root_is_sentinel"] {
+    for cls in ["anytrans_ntrans_32", "anytrans_ntrans_0_final_out", "onetransnext_common_input", "onetrans_explicit_input", "root_is_sentinel"] {
+        // which of the permitted layouts the builder picks for a node is its own choice
+        e.expect_class(cls, 1);
+    }
+    for cls in ["anytrans_ntrans_256", "anytrans_ntrans_33", "delta_width_2", "delta_width_3"] {
         e.require_class(cls, 1);
     }
     if e.tier == Tier::Thorough {
